@@ -677,6 +677,28 @@ theorem other_exchanges_progress {n : Node} (hr : Reach n) (hrx : n.rx = none)
   rw [hu] at hfire
   exact hfire
 
+/-! ## Duplicates are acknowledged in a way the peer's exchange can match (round H1) -/
+
+/-- "duplicates of already-received messages are acknowledged" — also for an exchange that is CLOSED on our
+side, whoever had initiated it. In every reachable state: if the receive path classifies an arriving
+message (not itself a standalone ack) as a duplicate, it sends a standalone ack that goes back to the
+sender, acknowledges the duplicate's counter and is matched by the peer's exchange that sent the
+duplicate (`peerExch`: same exchange id, the ack's initiator flag is the complement of the duplicate's).
+The seeded change C10-c (the flag is taken from our own exchange table, cleared when the exchange is gone)
+falsifies it: `example` below. -/
+theorem duplicate_ack_matches_peer_exchange {n : Node} (_hr : Reach n) (m : Msg) (rnd : Nat)
+    (hk : m.kind ≠ .sack) (hd : (step n (.arrive m rnd)).2 = .dropped (some .duplicate)) :
+    ∃ w, arriveAck n m rnd = some w ∧ AckMatchesPeer m w := by
+  obtain ⟨s, hs⟩ := arrive_dup_ack n m rnd hk hd
+  exact ⟨_, hs, dupAck_matches s m⟩
+
+/-- the same over histories from the initial state -/
+theorem duplicate_ack_matches_peer_exchange_history (now0 : Nat) (ops : List Op) (m : Msg) (rnd : Nat)
+    (hk : m.kind ≠ .sack)
+    (hd : (step (run { now := now0 } ops).1 (.arrive m rnd)).2 = .dropped (some .duplicate)) :
+    ∃ w, arriveAck (run { now := now0 } ops).1 m rnd = some w ∧ AckMatchesPeer m w :=
+  duplicate_ack_matches_peer_exchange (reach_run (Reach.init now0) ops) m rnd hk hd
+
 /-! ## Non-vacuity: concrete histories -/
 
 def exMa : Msg := { port := 11, sid := 0, ctr := 5, exch := 7, initiator := true, kind := .newSess }
@@ -818,5 +840,36 @@ example : ∃ j, 0 ≤ j ∧ (fairRun.st (j + 1)).rx = none ∧
     (fairRun.st j).now ≤ max (fairRun.st 0).now (fairX0.arrivedAt + Consts.acceptTimeoutMs) + 50 + 50 :=
   unclaimed_discarded_within fairRun fairRun_fair fairRun_diverges (k := 0) (x := fairX0) rfl
     (fun j _ _ ⟨s, hs, _⟩ => by simp [fairRun, fairSt, fairT0] at hs)
+
+
+/-- non-vacuity of `duplicate_ack_matches_peer_exchange`, on the history of seeded change C10-c: the peer opens
+an unsecured session, WE initiate exchange 1 on it, the peer's reliable answer (initiator flag clear) is
+received and consumed, the exchange is dropped and the closer sends the closing ack and frees the slot; the
+ack "is lost", the peer retransmits: the message is a duplicate, no exchange is left, and the ack carries the
+INITIATOR flag (we are the initiator of that exchange). -/
+def exAns : Msg := { port := 11, sid := 0, ctr := 6, exch := 1, initiator := false, kind := .other }
+def exOpsDup : List Op := [.arrive exMa 100, .accept, .recv 0 0, .initiate 0, .arrive exAns 0, .recv 0 1,
+  .dropEx 0 1, .closer]
+
+example : (run {} exOpsDup).2 =
+    [.kept 0 0 true, .accepted 0 0, .delivered 0 0 exMa, .ok, .kept 0 1 false, .delivered 0 1 exAns, .ok,
+     .closer (.closedExchange 0 1 1 (some (100, 6)))] := by decide
+
+example : (step (run {} exOpsDup).1 (.arrive exAns 0)).2 = .dropped (some .duplicate) ∧
+    ownerOf (run {} exOpsDup).1.t exAns = none ∧
+    arriveAck (run {} exOpsDup).1 exAns 0 =
+      some { port := 11, sid := 0, exch := 1, initiator := true, ack := some 6, kind := .sack } := by decide
+
+/-- the seeded variant (initiator flag cleared because the exchange is gone) does NOT satisfy the
+specification for this duplicate: the peer, responder of exchange 1, cannot match an ack without the
+initiator flag -/
+example : ¬ AckMatchesPeer exAns { port := 11, sid := 0, exch := 1, initiator := false, ack := some 6, kind := .sack } := by
+  decide
+
+/-- … and a duplicate on a closed exchange the PEER had initiated is acknowledged without the flag -/
+example : (step (run {} [.arrive exMa 100, .accept, .recv 0 0, .dropEx 0 0, .closer]).1 (.arrive exMa 100)).2 =
+      .dropped (some .duplicate) ∧
+    arriveAck (run {} [.arrive exMa 100, .accept, .recv 0 0, .dropEx 0 0, .closer]).1 exMa 100 =
+      some { port := 11, sid := 0, exch := 7, initiator := false, ack := some 5, kind := .sack } := by decide
 
 end C10
